@@ -406,13 +406,15 @@ def locInsertText (after : Bool) (r : Blk) (s : Str) (m : Meta) (bs : List DN) :
   | none => (none, .raise "ValueError")
   | some i => (some (locInsertTextAt (if after then i + 1 else i) s m bs), .str s)
 
-def locInsertEl (after : Bool) (r : Blk) (c : DN) (m : Meta) (bs : List DN) : Option Edit × Val :=
+/-- an element inserted before / after the reference block (at the end when the reference is not a
+    block: that case is never executed, `World.insert` raises before editing) -/
+def locInsertEl (after : Bool) (r : Blk) (c : DN) (m : Meta) (bs : List DN) : Edit :=
   match indexOf r bs with
-  | none => (none, .raise "ValueError")
-  | some i => (some (locInsertElAt (if after then i + 1 else i) c m bs), .el c.rid)
+  | none => locInsertElAt bs.length c m bs
+  | some i => locInsertElAt (if after then i + 1 else i) c m bs
 
 /-- `insertBefore(child, ref)` / `insertAfter(child, ref)`: append when `ref` is None; ValueError
-    (nothing touched) when `ref` is not among the blocks. -/
+    (nothing touched, the child stays where it was) when `ref` is not among the blocks. -/
 def World.insert (w : World) (after : Bool) (t : Nat) (b : Blk) (ref : Option Blk) : Option (World × Val) :=
   match ref with
   | none => w.appendBlock t b
@@ -423,10 +425,12 @@ def World.insert (w : World) (after : Bool) (t : Nat) (b : Blk) (ref : Option Bl
       match takeRoot c w.roots with
       | none => none
       | some (ct, rest) =>
-        match World.apply { w with roots := rest } t (locInsertEl after r ct) with
+        match findL? t rest with
         | none => none
-        | some (w', .raise k) => some (w, .raise k)      -- the child stays where it was
-        | some r' => some r'
+        | some (_, bs) =>
+          match indexOf r bs with
+          | none => some (w, .raise "ValueError")
+          | some _ => some (World.edit { w with roots := rest } t (locInsertEl after r ct), .el c)
 
 def World.removeText (w : World) (t : Nat) (s : Str) : Option (World × Val) :=
   w.apply t (fun m bs => (some (locRemoveText s m bs).1, (locRemoveText s m bs).2))
